@@ -20,6 +20,8 @@ def obligations(tier):
            bounds="1-3 divs, xml:lang on each div absent/en/fr/de, xml:lang on tt absent/en/fr/de (divs resolving to one language excluded)"),
         ch("lang_options", "harness.C14_langs", timeout=T, functions=("WebVTTWriter.write(lang=)", "DFXPWriter.write(force=)", "LegacyDFXPWriter.write(force=)", "_force_language"),
            exhaustive=True, bounds="3 language orders x requested language absent/en/fr/de/unknown x 3 writers"),
+        ch("lang_options_prefix", "harness.C14_langs", timeout=T, functions=("WebVTTWriter.write(lang=)", "DFXPWriter.write(force=)", "LegacyDFXPWriter.write(force=)", "_force_language"), exhaustive=True,
+           bounds="languages fr, fr-CA, de in 3 orders x option absent / each code / a fragment that is no code ('f-') x 3 writers"),
         ch("sami_find_lang", "harness.C14_langs", timeout=T, functions=("SAMIParser._find_lang",), exhaustive=True,
            bounds="0-3 attributes out of lang / known class / unknown class / id / upper-case LANG in every order"),
     ]
